@@ -135,6 +135,19 @@ func regStd() {
 	regEnv("bytes.Equal", "bytes.Equal = equality", func(ex *Executor, st *State, c *callCtx) []callResult {
 		return one(st, Eq(ex.bytesTerm(st, c.Args[0]), ex.bytesTerm(st, c.Args[1])))
 	})
+	regEnv("(*regexp.Regexp).MatchString", "Regexp.MatchString(s): uninterpreted predicate regex_match(re, s)", func(ex *Executor, st *State, c *callCtx) []callResult {
+		return one(st, App("regex_match", SBool, ex.asTerm(st, c.Args[0]), ex.asTerm(st, c.Args[1])))
+	})
+	regEnv("io.ReadAll", "io.ReadAll(r): arbitrary bytes or error", func(ex *Executor, st *State, c *callCtx) []callResult {
+		b, err := ex.Fresh("body", SStr), ex.freshErr(st, "readall")
+		return one(st, &TupleV{V: []Value{&BytesV{T: b}, err}})
+	})
+	regEnv("(*net/http.Request).ParseForm", "r.ParseForm(): arbitrary error", func(ex *Executor, st *State, c *callCtx) []callResult {
+		return one(st, ex.freshErr(st, "parseform"))
+	})
+	regEnv("(io.Closer).Close", "Close(): arbitrary error", func(ex *Executor, st *State, c *callCtx) []callResult {
+		return one(st, ex.freshErr(st, "close"))
+	})
 	regEnv("strings.ContainsAny", "strings.ContainsAny(s, chars): some byte of chars occurs in s (literal chars)", func(ex *Executor, st *State, c *callCtx) []callResult {
 		s := ex.asTerm(st, c.Args[0])
 		chars, ok := ex.asTerm(st, c.Args[1]).StrVal()
